@@ -136,6 +136,17 @@ pub fn gen(seed: u64, n: usize, tier: &str) -> Vec<Case> {
         if v == 1 { ops.push(opv("SET", vec![i(0), bv(b"newer"), bv(b"value"), i(-1)])); ops.push(op_t("ISAVE")); ops.push(op_t("RELOAD")); ops.push(op_t("DUMP")); }
         cases.push(Case { id: format!("blocked-save-{}", v), ops, outs: vec![] });
     }
+    // every write call of a save fails in turn (only when the hook is compiled in)
+    if c09::Env::has_failat_hook() {
+        for v in 0..6 {
+            let mut ops = vec![];
+            small_dataset(&mut r, &mut ops, false);
+            ops.push(op_t("ISAVE"));
+            ops.push(opv("SET", vec![i(0), bv(b"newer"), bv(b"value"), i(-1)]));
+            ops.push(op_t("FAILSWEEP")); ops.push(op_t("DUMP"));
+            cases.push(Case { id: format!("failat-{}", v), ops, outs: vec![] });
+        }
+    }
     // every prefix and single-byte corruption of valid dumps written by the implementation / by the model
     let mut k = 0;
     while cases.len() < n {
@@ -171,6 +182,11 @@ pub fn judge(c: &Case, outs: &[Vec<Tok>]) -> Vec<String> {
                 for v in 0..n { let st = tok_int(&out[1 + 2 * v]); if st & 3 == 2 { panics += 1; } if st & 4 != 0 { bigs += 1; } }
                 if panics > 0 { fails.push(format!("FAIL case={} op={}{} the loader panicked on {} of {} damaged variants", c.id, k, cls(""), panics, n)); }
                 if bigs > 0 { fails.push(format!("FAIL case={} op={}{} allocation far beyond the file length on {} of {} damaged variants", c.id, k, cls("rdb-alloc"), bigs, n)); }
+            }
+            b"FAILSWEEP" => {
+                if out.len() == 4 && (out[1] != i(1) || out[2] != i(1) || out[3] != i(1)) {
+                    fails.push(format!("FAIL case={} op={} failing each of the {:?} write calls of a save: all reported failure {:?}, dump unchanged {:?}, later save ok {:?}", c.id, k, out[0], out[1], out[2], out[3]));
+                }
             }
             b"BLOCKSAVE" => {
                 if out.first() != Some(&i(1)) || out.get(1) != Some(&i(1)) { fails.push(format!("FAIL case={} op={} a save that could not open its temporary file: status {:?}, dump unchanged {:?}", c.id, k, out.first(), out.get(1))); }
